@@ -29,6 +29,9 @@ func runC02(c *Ctx) {
 	c02R2(c)
 	c02R3(c)
 	c02R4(c)
+	if es := c.P.LangFunc("(*Evaluator).evalStatement"); es != nil {
+		c.shared("R9", "C07/R1", "`next` abandons the remaining rules and `exit` ends the run wherever they are written: every loop consumes break and continue only and passes every other outcome of its body (the next and exit signals included) on unchanged", keyHas("loop-bod"), func(s *Ctx) { c07LoopConsumption(s, es) })
+	}
 	c.shared("R6", "C08/R1", "rules keep running for every element: a `next` (or any other way out of a function body) leaves no frame behind, otherwise a long input ends in a spurious `call depth limit exceeded` and the remaining elements and END rules are never reached", keyHas("balance "), func(s *Ctx) { c08R1(s, discoverFrameModel(s.P)) })
 	c.shared("R5", "C14/R2", "the -r selectors reach the interpreter complete and in the order given: multiFlag.Set appends, Run passes the accumulated slice", keyHas("selector"), c14R2)
 	c.shared("R8", "C04/R15", "`$` is bound to each element in turn: every element of an input array has a cell of its own (assigning to `$` for one element does not show up in another)", keyHas("value-construction"), func(s *Ctx) { newValueTable(s, "R15") })
@@ -436,6 +439,38 @@ func c02R3(c *Ctx) {
 					}
 					n += nSites - 1
 					c.check(okSites && nSites > 0, "R3", key, p.InstrPos(ifi), fmt.Sprintf("exit filter used by the driver at %d returns", nSites), "the exit filter "+name+" is not used exclusively as the error of an immediate return of EvalProgram")
+				case isSentinelPredicate(ek, fn):
+					// a predicate over the sentinels (`isControlFlow(err)`): the test belongs to its callers.
+					// Accepted where the selector entry point rejects every signal: the call's true edge
+					// returns a runtime error
+					okP, nSites := true, 0
+					for _, cs := range p.CallSitesOf(fn) {
+						caller := cs.Parent()
+						if p.inTestFile(caller) {
+							continue
+						}
+						nSites++
+						cv, isVal := cs.(*ssa.Call)
+						if !isVal || shortName(caller) != "lang.EvalExpression" {
+							okP = false
+							continue
+						}
+						for _, r := range referrersOf(cv) {
+							ci, ok := r.(*ssa.If)
+							if !ok {
+								continue
+							}
+							te := ci.Block().Succs[0]
+							for b := range reachableFrom([]*ssa.BasicBlock{te}, nil) {
+								if rt, ok := b.Instrs[len(b.Instrs)-1].(*ssa.Return); ok && te.Dominates(b) {
+									if ek.KindsAt(effectiveResults(rt)[1], FactsOf(caller).At(b)) != KRuntime {
+										okP = false
+									}
+								}
+							}
+						}
+					}
+					c.check(okP && nSites > 0, "R3", key, p.InstrPos(ifi), sName+" is tested by a sentinel predicate that only the selector entry point uses, to turn the signal into a runtime error", sName+" is compared in the predicate "+name+", which is used outside the selector entry point's rejection of control-flow signals")
 				default:
 					c.violated("R3", key, p.InstrPos(ifi), sName+" is compared in "+name+", which is not one of its designed consumers")
 				}
@@ -884,4 +919,15 @@ func patternGateHelper(c *Ctx, er *ssa.Function) *ssa.Function {
 		}
 	}
 	return nil
+}
+
+// isSentinelPredicate: fn is a pure boolean function of one error parameter whose answer depends
+// only on which sentinel the error is (EK.kindPredicate).
+func isSentinelPredicate(ek *EK, fn *ssa.Function) bool {
+	for j := range fn.Params {
+		if _, ok := ek.kindPredicate(fn, j); ok {
+			return true
+		}
+	}
+	return false
 }
